@@ -783,6 +783,168 @@ int run_d(Reader& r, bool& nontrivial, std::string& desc) {
     return 0;
 }
 
+
+// =================================================================================================================
+// part (e): a test that runs OTHER tests to completion from inside its body (as the framework's own tests do with
+// TestTestingFixture): the outer test redirects pointers, then runs 1..3 inner tests on a private registry that has a
+// SetPointerPlugin of its own (constructed before the outer run starts) or shares the outer plugin object, and the inner tests
+// redirect pointers too (same or other targets).  The statement is applied at both levels: after an inner test's post actions
+// every pointer IT redirected has the value it had before ITS first redirection (the outer test's stub value if the outer test
+// had redirected it), pointers it did not redirect are untouched; after the outer test's post actions every pointer the outer
+// test redirected has the value it had before the outer test's first redirection.  The table is process-wide, so inner
+// redirections count against the same 32 entries; nested programs stay below 32 entries in total, the limit is not judged here.
+const char* KEY_NEST = "C17:inner-test-post-action-restores-enclosing-tests-redirections";
+enum { E_REDIRECT, E_PLAIN, E_INNER };
+struct EStep { int kind; int target; uint32_t value; int prog; };
+struct ETest { std::vector<EStep> steps; };
+struct Nest {
+    std::vector<EStep> outer;
+    std::vector<std::vector<ETest> > programs;
+    TestPlugin* inner_setp;
+    std::vector<Sample> inner_pre, inner_post;
+};
+Nest* g_nest;
+class InnerObserver : public TestPlugin {
+public:
+    InnerObserver() : TestPlugin("inner observer") {}
+    void preTestAction(UtestShell&, TestResult& r) CPPUTEST_OVERRIDE { g_nest->inner_pre.push_back(Observer::take(r)); }
+    void postTestAction(UtestShell&, TestResult& r) CPPUTEST_OVERRIDE { g_nest->inner_post.push_back(Observer::take(r)); }
+};
+class InnerTest : public Utest {
+public:
+    const ETest* t_;
+    explicit InnerTest(const ETest* t) : t_(t) {}
+    void testBody() CPPUTEST_OVERRIDE {
+        for (const EStep& st : t_->steps) { if (st.kind == E_REDIRECT) UT_PTR_SET(g_target[st.target], val(st.value)); else g_target[st.target] = val(st.value); }
+    }
+};
+class InnerShell : public UtestShell {
+public:
+    const ETest* t_;
+    InnerShell() : UtestShell("C17", "inner", "c17_plugins.cpp", 3), t_(NULLPTR) {}
+    Utest* createTest() CPPUTEST_OVERRIDE { return new InnerTest(t_); }
+};
+void run_inner_program(const std::vector<ETest>& prog) {
+    TestRegistry reg;
+    InnerObserver obs;
+    reg.installPlugin(g_nest->inner_setp);
+    reg.installPlugin(&obs);
+    std::vector<InnerShell> shells(prog.size());
+    for (size_t i = prog.size(); i-- > 0;) { shells[i].t_ = &prog[i]; reg.addTest(&shells[i]); }
+    CaptureOutput out; TestResult res(out);
+    reg.runAllTests(res);
+}
+class OuterNestTest : public Utest {
+public:
+    void testBody() CPPUTEST_OVERRIDE {
+        for (const EStep& st : g_nest->outer) {
+            if (st.kind == E_REDIRECT) UT_PTR_SET(g_target[st.target], val(st.value));
+            else if (st.kind == E_PLAIN) g_target[st.target] = val(st.value);
+            else run_inner_program(g_nest->programs[(size_t)st.prog]);
+        }
+    }
+};
+class OuterNestShell : public UtestShell {
+public:
+    OuterNestShell() : UtestShell("C17", "outer", "c17_plugins.cpp", 4) {}
+    Utest* createTest() CPPUTEST_OVERRIDE { return new OuterNestTest(); }
+};
+
+int run_e(Reader& r, bool& nontrivial, std::string& desc) {
+    Nest n; g_nest = &n;
+    struct Unset { ~Unset() { g_nest = NULLPTR; } } unset;
+    bool share = r.flag();
+    int nsteps = 1 + (int)r.below(5);
+    int small = 6;                                    // few targets: outer and inner tests meet on the same pointers
+    for (int i = 0; i < nsteps; i++) {
+        uint32_t k = r.below(4);
+        EStep st{E_REDIRECT, (int)r.below((uint32_t)small), r.below(200), 0};
+        if (k == 3 || (k == 2 && n.programs.empty())) {
+            st.kind = E_INNER; st.prog = (int)n.programs.size();
+            std::vector<ETest> prog((size_t)(1 + r.below(3)));
+            desc += "inner{";
+            for (ETest& t : prog) {
+                int m = (int)r.below(4);
+                desc += "t[";
+                for (int q = 0; q < m; q++) { bool plain = r.below(4) == 3;
+                    // known finding: once an inner post action has forgotten the outer test's entries, a plain write to such a pointer is never undone
+                    if (plain && verif::known(KEY_NEST)) plain = false;
+                    EStep is{plain ? E_PLAIN : E_REDIRECT, (int)r.below((uint32_t)small), r.below(200), 0}; t.steps.push_back(is); desc += sfmt("%s(t%d,%u) ", is.kind == E_PLAIN ? "write" : "set", is.target, is.value); }
+                desc += "] ";
+            }
+            desc += "} ";
+            n.programs.push_back(prog);
+        } else desc += sfmt("set(t%d,%u) ", st.target, st.value);
+        n.outer.push_back(st);
+    }
+    bool second = r.flag(); int second_count = second ? r.pick((const int[]){32, 1, 8, 31}) : 0;
+    if (second) desc += sfmt("then a test with %d redirections ", second_count);
+    desc += share ? "[inner runs share the outer SetPointerPlugin object]" : "[inner registry has its own SetPointerPlugin]";
+    if (verif::g_explain) fprintf(stderr, "part e: %s\n", desc.c_str());
+
+    for (int i = 0; i < NT; i++) g_target[i] = base_val(i);
+    UtestShell::setRethrowExceptions(false);
+    SetPointerPlugin setp_inner("SetPointerPlugin");   // both constructed before the outer run starts (the constructor empties the table)
+    SetPointerPlugin setp("SetPointerPlugin");
+    n.inner_setp = share ? (TestPlugin*)&setp : (TestPlugin*)&setp_inner;
+    Observer obs;
+    TestRegistry reg;
+    reg.installPlugin(&setp); reg.installPlugin(&obs);
+    OuterNestShell outer_shell; ScriptShell second_shell; TestScript second_script;
+    if (second) { second_script.ph[1].steps.push_back(Step{S_BURST, 0, 100, second_count, 1}); second_script.ph[0].outcome = second_script.ph[1].outcome = second_script.ph[2].outcome = O_PASS; second_shell.s_ = &second_script; reg.addTest(&second_shell); }
+    reg.addTest(&outer_shell);
+    CaptureOutput out; TestResult res(out);
+    reg.runAllTests(res);
+
+    // ---- model
+    void* cur[NT]; for (int i = 0; i < NT; i++) cur[i] = base_val(i);
+    bool oredir[NT]; void* obefore[NT]; for (int i = 0; i < NT; i++) { oredir[i] = false; obefore[i] = NULLPTR; }
+    size_t k = 0; bool inner_after_redirect = false, same_target = false;
+    for (const EStep& st : n.outer) {
+        if (st.kind == E_REDIRECT) { if (!oredir[st.target]) { oredir[st.target] = true; obefore[st.target] = cur[st.target]; } cur[st.target] = val(st.value); continue; }
+        if (st.kind == E_PLAIN) { cur[st.target] = val(st.value); continue; }
+        for (const ETest& t : n.programs[(size_t)st.prog]) {
+            V_CHECK(k < n.inner_pre.size() && k < n.inner_post.size(), "C17:observer-not-called", "inner test #%zu did not run", k);
+            for (int i = 0; i < NT; i++) V_CHECK(n.inner_pre[k].v[i] == cur[i], "C17:target-changed-between-tests", "target %d is %p at the start of inner test #%zu, model says %p", i, n.inner_pre[k].v[i], k, cur[i]);
+            bool iredir[NT]; void* ibefore[NT]; for (int i = 0; i < NT; i++) { iredir[i] = false; ibefore[i] = NULLPTR; }
+            for (const EStep& is : t.steps) {
+                if (is.kind == E_REDIRECT && !iredir[is.target]) { iredir[is.target] = true; ibefore[is.target] = cur[is.target]; if (oredir[is.target]) same_target = true; }
+                cur[is.target] = val(is.value);
+            }
+            for (int i = 0; i < NT; i++) { if (iredir[i]) cur[i] = ibefore[i]; if (oredir[i]) inner_after_redirect = true; }
+            for (int i = 0; i < NT; i++) {
+                void* got = n.inner_post[k].v[i];
+                if (got == cur[i]) continue;
+                if (oredir[i] && got == obefore[i]) {   // the enclosing test's redirection was undone by the inner test's post action
+                    if (verif::known(KEY_NEST)) { cur[i] = got; continue; }
+                    return verif::fail(KEY_NEST, "the outer test had redirected target %d (from %p); inner test #%zu %s; after the inner test's post actions the target is back at %p, expected %p (the value before the inner test's first redirection)",
+                                       i, obefore[i], k, iredir[i] ? "redirected it too" : "did not redirect it", got, cur[i]);
+                }
+                return verif::fail(iredir[i] ? "C17:redirected-target-not-restored" : "C17:unredirected-target-changed", "inner test #%zu: target %d is %p after its post actions, expected %p", k, i, got, cur[i]);
+            }
+            k++;
+        }
+    }
+    if (inner_after_redirect) { nontrivial = true; verif::cls("e:nt:inner-run-while-outer-redirections-are-live"); }
+    if (same_target) verif::cls("e:inner-and-outer-redirect-the-same-target");
+    verif::cls(share ? "e:shared-plugin-object" : "e:own-inner-plugin-object");
+    for (int i = 0; i < NT; i++) if (oredir[i]) cur[i] = obefore[i];
+    size_t want_obs = second ? 2 : 1;
+    V_CHECK(obs.post.size() == want_obs, "C17:observer-not-called", "outer observer saw %zu post actions, expected %zu", obs.post.size(), want_obs);
+    for (int i = 0; i < NT; i++) {
+        if (obs.post[0].v[i] == cur[i]) continue;
+        return verif::fail(oredir[i] ? "C17:redirected-target-not-restored" : "C17:unredirected-target-changed", "outer test (which ran %zu inner tests): target %d is %p after its post actions, expected %p%s", k, i, obs.post[0].v[i], cur[i],
+                           oredir[i] ? " (its value before the outer test's first redirection)" : "");
+    }
+    V_CHECK(obs.post[0].failures == 0, "C17:spurious-failure", "the outer test stays far below the limit but recorded %zu failure(s): %s", obs.post[0].failures, verif::printable(out.text).substr(0, 300).c_str());
+    if (second) {
+        V_CHECK(obs.post[1].failures == 0, "C17:spurious-failure", "a test with %d redirections that runs after the nesting test recorded %zu failure(s): %s", second_count, obs.post[1].failures, verif::printable(out.text).substr(0, 300).c_str());
+        for (int i = 0; i < NT; i++) V_CHECK(obs.post[1].v[i] == cur[i], "C17:redirected-target-not-restored", "the test after the nesting test: target %d is %p after its post actions, expected %p", i, obs.post[1].v[i], cur[i]);
+    }
+    for (int i = 0; i < NT; i++) V_CHECK(g_target[i] == cur[i], "C17:target-changed-after-run", "target %d changed after the last post action", i);
+    return 0;
+}
+
 }  // namespace
 
 extern "C" const char* verif_property(void) { return "C17"; }
@@ -794,17 +956,37 @@ extern "C" int verif_case(const uint8_t* data, size_t size) {
     static const char part_of[8] = {'a', 'b', 'c', 'b', 'a', 'c', 'b', 'd'};   // 0..3 keep the meaning they have in the corpus
     uint32_t sel = r.below(8);
     char part = part_of[sel];
+    if (sel == 5 && r.flag()) part = 'e';        // 5: part (c) with shared names, or part (e)
     bool dup = sel >= 4;                        // 4..6: different plugin objects may share a name
     if (dup) verif::cls("names:shared");
     if (part == 'a') { verif::cls("part:a-set-pointer"); desc = "a: "; rc = run_a(r, nontrivial, desc, dup); }
     else if (part == 'b') { verif::cls("part:b-chains"); desc = "b: "; rc = run_b(r, nontrivial, desc, dup); }
     else if (part == 'c') { verif::cls("part:c-chain-changes-during-a-run"); desc = "c: "; rc = run_c(r, nontrivial, desc, dup); }
+    else if (part == 'e') { verif::cls("part:e-nested-test-runs"); desc = "e: "; rc = run_e(r, nontrivial, desc); }
     else { verif::cls("part:d-command-line-runner"); desc = "d: "; rc = run_d(r, nontrivial, desc); }
     if (verif::g_explain) fprintf(stderr, "case: %s\n", desc.c_str());
     verif::note_case(nontrivial, r.h, [&] { return desc.substr(0, 600); });
     return rc;
 }
 extern "C" int verif_known_repro(const char* key) {
+    if (std::string(key) == KEY_NEST) {
+        // outer test: UT_PTR_SET(t0, stub), then runs one empty inner test on a private registry with its own SetPointerPlugin;
+        // after the inner test's post actions t0 must still be the stub
+        Nest n; g_nest = &n;
+        n.outer.push_back(EStep{E_REDIRECT, 0, 7, 0});
+        n.outer.push_back(EStep{E_INNER, 0, 0, 0});
+        n.programs.push_back(std::vector<ETest>(1));
+        for (int i = 0; i < NT; i++) g_target[i] = base_val(i);
+        SetPointerPlugin inner("SetPointerPlugin"), outer("SetPointerPlugin");
+        n.inner_setp = &inner;
+        TestRegistry reg; reg.installPlugin(&outer);
+        OuterNestShell shell; reg.addTest(&shell);
+        CaptureOutput out; TestResult res(out);
+        reg.runAllTests(res);
+        int r = (n.inner_post.size() == 1 && n.inner_post[0].v[0] == base_val(0)) ? 1 : 0;
+        g_nest = NULLPTR;
+        return r;
+    }
     if (std::string(key) == KEY_SEVERAL) {
         // two different plugin objects named "Logger" (A older, B newer) and a third plugin: removing "Logger" must take out exactly one
         TestRegistry reg;
